@@ -225,13 +225,16 @@ def _show_val(v: dict) -> str:
             "float": v["s"], "str": repr(v["s"]), "bytes": "b'1.1'", "obj": "<object>"}[t]
 
 
-def _show_op(o: dict) -> str:
+def _show_op(o: dict, specs: dict | None = None) -> str:
     op = o["op"]
     if op == "new":
         if o["via"] == "iter":
             return f"it{o['k']} = iter(image)"
+        spec = _show_val(o["b"])
+        if specs and o["b"]["t"] == "str":
+            spec = f"{specs.get(o['b']['s'])!r} ({o['b']['s']})"
         return (f"it{o['k']} = ImageIterator({o['img']} image, repeat={_show_val(o['a'])}, "
-                f"format_spec={_show_val(o['b'])}, cached={_show_val(o['c'])})")
+                f"format_spec={spec}, cached={_show_val(o['c'])})")
     if op == "imgseek":
         return f"image.seek({_show_val(o['a'])})"
     if op == "seek":
@@ -249,7 +252,7 @@ def _describe(t: dict, v: dict) -> str:
     lo = max(0, at - 10)
     for i, e in enumerate(t["ev"][lo:at], lo + 1):
         extra = f" #{e['frame']}" if e["frame"] != -1 else ""
-        lines.append(f"  {i}. {_show_op(e['o'])} -> {e['res']}{extra}"
+        lines.append(f"  {i}. {_show_op(e['o'], wc['specs'])} -> {e['res']}{extra}"
                      + (f" (rendered {e['rend']})" if e["o"]["op"] == "next" and e["res"] == "frame" else ""))
     if 0 < at <= len(t["ev"]):
         e = t["ev"][at - 1]
@@ -286,6 +289,17 @@ def report(rep: Report, traces: list[dict], validated, origin: str, expect_fail:
 
 
 # ------------------------------------------------------------------ main
+def _run_tlc(*a, **kw):
+    """TLC with several workers once died on a race over a shared constant record ("Attempted to select
+    nonexistent field ..."): such a failure is retried once with a single worker."""
+    try:
+        return tlc.run(*a, **kw)
+    except tlc.MachineryError as e:
+        if "nonexistent field" not in str(e) or kw.get("workers") == 1:
+            raise
+        return tlc.run(*a, **dict(kw, workers=1))
+
+
 def _replay(rep: Report, replay: dict) -> None:
     sc = replay["scenario"]
     if sc.get("kind") == "design":
@@ -332,7 +346,7 @@ def main(rep: Report, replay: dict | None) -> None:
         with ThreadPoolExecutor(max_workers=6) as ex:
             # -coverage with several workers hit a TLC race on shared constant records once: 1 worker
             f_mc = ex.submit(tlc.run, "MC_IterLife", mc_cfg, workers=1, timeout=900, coverage=True)
-            f_pair = ex.submit(tlc.run, "MC_IterLife", pair_cfg, workers=2 if quick else 4, timeout=1800)
+            f_pair = ex.submit(_run_tlc, "MC_IterLife", pair_cfg, workers=2 if quick else 4, timeout=1800)
             f_edges = ex.submit(tlc.run, "MC_IterLife", f"Edges_IterLife_{tier}.cfg", workers=1,
                                 timeout=900 if quick else 1800)
 
@@ -343,16 +357,25 @@ def main(rep: Report, replay: dict | None) -> None:
                       for _ in range(nh)]
             recorded = pool.map(record_random, htasks, chunksize=8)
             lap("record_histories")
-            # canary: a corrupted copy of a recorded history (loop_no altered in one observation)
-            src = next(t for t in recorded
-                       if any(e["res"] == "frame" and e["obs"]["its"][e["o"]["k"] - 1]["ln"] != "None" for e in t["ev"]))
-            kk = next(i for i, e in enumerate(src["ev"])
-                      if e["res"] == "frame" and e["obs"]["its"][e["o"]["k"] - 1]["ln"] != "None")
-            canary = copy.deepcopy(_trace_json(src))
-            canary["ev"] = canary["ev"][: kk + 1]
-            slot = canary["ev"][kk]["o"]["k"] - 1
-            canary["ev"][kk]["obs"]["its"][slot]["ln"] = "0" if canary["ev"][kk]["obs"]["its"][slot]["ln"] != "0" else "1"
-            f_hist = ex.submit(validate, recorded + [dict(canary, wcfg=src["wcfg"])], "x09-c2s")
+            # canaries: corrupted copies of recorded histories (loop_no altered in one observation)
+            def _started(e):
+                return e["res"] == "frame" and e["obs"]["its"][e["o"]["k"] - 1]["ln"] != "None"
+
+            canaries = []  # (index of the source history, event index, corrupted trace)
+            for hi, t_ in enumerate(recorded):
+                kk = next((i for i, e in enumerate(t_["ev"]) if _started(e)), None)
+                if kk is None:
+                    continue
+                cn = copy.deepcopy(_trace_json(t_))
+                cn["ev"] = cn["ev"][: kk + 1]
+                ob = cn["ev"][kk]["obs"]["its"][cn["ev"][kk]["o"]["k"] - 1]
+                ob["ln"] = "0" if ob["ln"] != "0" else "1"
+                canaries.append((hi, kk, dict(cn, wcfg=t_["wcfg"])))
+                if len(canaries) == 5:
+                    break
+            if not canaries:
+                raise tlc.MachineryError("x09: no recorded history ever started an iteration")
+            f_hist = ex.submit(validate, recorded + [cn for _, _, cn in canaries], "x09-c2s")
 
             # ---- spec -> code: replay every edge
             res_e = f_edges.result()
@@ -402,9 +425,16 @@ def main(rep: Report, replay: dict | None) -> None:
             res_pair = f_pair.result()
             lap("wait_model_check")
             hv, hst, htr = f_hist.result()
-            cv = hv.pop()
-            if cv["verdict"] == "ok" or cv["at"] != kk + 1 or "loop_no" not in cv["verdict"]:
-                raise tlc.MachineryError(f"x09: Trace_IterLife accepted a corrupted trace (or named another clause): {cv}")
+            cvs = hv[len(recorded):]
+            del hv[len(recorded):]
+            # a corrupted copy must be rejected at the corrupted event with a clause naming loop_no; only
+            # histories the real code passed can tell (a violating one is rejected earlier, rightly)
+            judged = [(cv, kk) for (hi, kk, _), cv in zip(canaries, cvs) if hv[hi]["verdict"] == "ok"]
+            for cv, kk in judged:
+                if cv["verdict"] == "ok" or cv["at"] != kk + 1 or "loop_no" not in cv["verdict"]:
+                    raise tlc.MachineryError(f"x09: Trace_IterLife accepted a corrupted trace (or named another clause): {cv}")
+            if not judged and all(v["verdict"] == "ok" for v in hv):
+                raise tlc.MachineryError("x09: no corrupted-trace canary could be judged")
             wv, wst, wtr = f_walks.result()
             lap("wait_trace_validation")
     finally:
@@ -450,7 +480,8 @@ def main(rep: Report, replay: dict | None) -> None:
                            "disagreeing_walks": len(mism),
                            "edges_not_reached_behind_a_disagreement": sum(r["lost_edges"] for r in results),
                            "walks_also_validated_by_tlc": len(sampled)}
-    rep.extra["canary"] = {"corrupted_trace_verdict": cv["verdict"], "tampered_edge": "noticed"}
+    rep.extra["canary"] = {"corrupted_traces_rejected": len(judged), "clause": sorted({cv["verdict"] for cv, _ in judged}),
+                           "tampered_edge": "noticed"}
     nm = len(mism)
     report(rep, mism, (wv[:nm], wst, wtr), "spec->code replay", expect_fail=True)
     sv = report(rep, sampled, (wv[nm:], 0, 0), "spec->code replay (walk judged by TLC)")
